@@ -66,6 +66,12 @@ def main() -> int:
     ev = C.Evidence("C04", "model_checking")
     cs = cases(C.tier())
     findings, harness = D.run_check("C04", MODULE, cs, ev, key_fn, sample_paths=2 if C.tier() == "quick" else 4, max_paths=20000, what_fn=what_fn)
+    from checks import c01_re
+
+    f3, h3, re_info = c01_re.lemmas(ev, prop="C04", only_constructs=True)
+    findings += f3
+    harness += h3
+    ev.add(escaper_leaves_constructs_alone_E_RE=re_info)
     kern = {}
     try:
         from checks import kernels
